@@ -60,7 +60,7 @@ func TestC13(t *testing.T) {
 	var gm gaugeMax
 	http2.VerifSetGaugeHook(gm.observe)
 	defer http2.VerifSetGaugeHook(nil)
-	attacks := []string{"rapid-reset", "half-open", "priority-idle", "continuation-small-fields", "continuation-empty", "continuation-endless-literal", "body-over-limit-undeclared", "body-over-limit-declared", "content-length-lie", "ping-flood", "settings-flood", "ping-flood-no-read", "mixed", "self-reset-slots", "body-limit-boundary", "continuation-endless-literal-refused", "request-timeout-slots"}
+	attacks := []string{"rapid-reset", "half-open", "priority-idle", "continuation-small-fields", "continuation-empty", "continuation-endless-literal", "body-over-limit-undeclared", "body-over-limit-declared", "content-length-lie", "ping-flood", "settings-flood", "ping-flood-no-read", "mixed", "self-reset-slots", "body-limit-boundary", "continuation-endless-literal-refused", "request-timeout-slots", "content-length-zero", "trailers-over-header-limit"}
 	n := r.Pick(160, 3000)
 	for i := 0; i < n; i++ {
 		id := fmt.Sprintf("a%d", i)
@@ -216,7 +216,7 @@ func c13Attack(r *vf.Run, t *testing.T, id string, rng *rand.Rand, gm *gaugeMax,
 					rt.Wait()
 				}
 			}
-		case "body-over-limit-undeclared", "body-over-limit-declared", "content-length-lie":
+		case "body-over-limit-undeclared", "body-over-limit-declared", "content-length-lie", "content-length-zero":
 			per := frames / m
 			for s := 0; s < m; s++ {
 				fs := []F{{Name: ":method", Value: "POST"}, {Name: ":scheme", Value: "https"}, {Name: ":path", Value: "/up"}, {Name: ":authority", Value: "u.example"}, {Name: "x-vtag", Value: fmt.Sprintf("%s.%d", id, next)}}
@@ -225,6 +225,9 @@ func c13Attack(r *vf.Run, t *testing.T, id string, rng *rand.Rand, gm *gaugeMax,
 					fs = append(fs, F{Name: "content-length", Value: fmt.Sprint(bodyLimit * 4)})
 				case "content-length-lie":
 					fs = append(fs, F{Name: "content-length", Value: "10"})
+				case "content-length-zero":
+					// "no body" declared, and a body that never ends follows: 0 is a length like any other
+					fs = append(fs, F{Name: "content-length", Value: "0"})
 				}
 				send(rt.Concat(rt.HeaderFrames(next, e.P.EncodeBlock(fs, nil), nil, -1, nil, false)))
 				for i := 0; i < per; i++ {
@@ -278,6 +281,29 @@ func c13Attack(r *vf.Run, t *testing.T, id string, rng *rand.Rand, gm *gaugeMax,
 				if i%10 == 0 {
 					rt.Wait()
 				}
+			}
+		case "trailers-over-header-limit":
+			// the header block and the trailer block are each within MaxHeaderListSize, together they are not; both end up in
+			// the header list the handler is given
+			rt.Open(gate)
+			for s := 0; s < min(m, 4); s++ {
+				tag := fmt.Sprintf("%s.%d", id, next)
+				big := func(n int) string { return randToken(lr, n, "abcdefghijklmnopqrstuvwxyz0123456789") }
+				share := hdrLimit * (55 + lr.Intn(35)) / 100
+				fs := []F{{Name: ":method", Value: "POST"}, {Name: ":scheme", Value: "https"}, {Name: ":path", Value: "/up"}, {Name: ":authority", Value: "u.example"}, {Name: "x-vtag", Value: tag}, {Name: "x-filler", Value: big(max(1, share-250))}}
+				out := rt.Concat(rt.HeaderFrames(next, e.P.EncodeBlock(fs, nil), nil, -1, nil, false))
+				out = append(out, wire.Frame(nil, wire.TData, 0, next, []byte("body"), -1)...)
+				tr := []F{{Name: "x-trailer-filler", Value: big(max(1, share-100))}}
+				var splits []int
+				if lr.Intn(2) == 0 {
+					splits = []int{1 + lr.Intn(share/2+1)}
+				}
+				out = append(out, rt.Concat(rt.HeaderFrames(next, e.P.EncodeBlock(tr, nil), splits, -1, nil, true))...)
+				if !send(out) {
+					break
+				}
+				rt.Wait()
+				next += 2
 			}
 		case "body-limit-boundary":
 			// no content-length; the body creeps up to the limit and the last frame, with END_STREAM, crosses it
